@@ -877,6 +877,8 @@ class LoadConst(DataflowOp):
                 return tys.ConstKind(self.type_)
             case OutPort(_, 0):
                 return tys.ValueKind(self.type_)
+            case _ if port.offset == -1:
+                return tys.OrderKind()
             case _:
                 raise self._invalid_port(port)
 
@@ -1218,6 +1220,8 @@ class Call(_CallOrLoad, Op):
         match port:
             case InPort(_, offset) if offset == self._function_port_offset():
                 return tys.FunctionKind(self.signature)
+            case _ if port.offset == -1:
+                return tys.OrderKind()
             case _:
                 return tys.ValueKind(_sig_port_type(self.instantiation, port))
 
@@ -1304,6 +1308,8 @@ class LoadFunc(_CallOrLoad, DataflowOp):
                 return tys.FunctionKind(self.signature)
             case OutPort(_, 0):
                 return tys.ValueKind(self.instantiation)
+            case _ if port.offset == -1:
+                return tys.OrderKind()
             case _:
                 raise self._invalid_port(port)
 
